@@ -89,6 +89,10 @@ def render_pseudo(p) -> str:
         if of_s is not None:
             s += ' of ' + ', '.join(render_complex(cx) for cx in of_s)
         return s + ')'
+    if k == 'amp':
+        return '&'
+    if k == 'custom':
+        return p[1]
     return ':' + k
 
 
@@ -164,6 +168,7 @@ class Ctx:
         self.ns_aware = ns_aware
         self._top = top
         self._all = None
+        self.custom = {}
 
     def all_elements(self):
         if self._all is None:
@@ -290,8 +295,10 @@ def match_pseudo(el, p, ctx) -> bool:
             if is_element(n) or isinstance(n, bs4.CData) or (is_text(n) and n.strip(WS)):
                 return False
         return True
-    if k == 'scope':
+    if k in ('scope', 'amp'):
         return ctx.scope is el
+    if k == 'custom':
+        return any(matches_complex(el, cx, ctx) for cx in ctx.custom[p[1]])
     if k == 'empty':
         for n in el.contents:
             if is_element(n):
@@ -449,12 +456,14 @@ def _anch(el, cx, i, ctx, anchor, acomb) -> bool:
     return any(_anch(s, cx, i - 1, ctx, anchor, acomb) for s in sibs[:idx])
 
 
-def ref_select(lst, node, html=True, namespaces=None, ns_aware=None):
+def ref_select(lst, node, html=True, namespaces=None, ns_aware=None, custom=None):
     """Reference select(): element descendants of `node`, document order, matching some complex selector."""
     ctx = Ctx(node, html=html, namespaces=namespaces, ns_aware=ns_aware)
+    ctx.custom = custom or {}
     return [e for e in descendants(node) if any(matches_complex(e, cx, ctx) for cx in lst)]
 
 
-def ref_match(lst, el, scope_node=None, html=True, namespaces=None):
+def ref_match(lst, el, scope_node=None, html=True, namespaces=None, custom=None):
     ctx = Ctx(scope_node if scope_node is not None else el, html=html, namespaces=namespaces)
+    ctx.custom = custom or {}
     return is_element(el) and any(matches_complex(el, cx, ctx) for cx in lst)
